@@ -15,6 +15,7 @@ import (
 	"bytes"
 	"fmt"
 	"math/rand"
+	"regexp"
 	"sort"
 	"strconv"
 	"strings"
@@ -534,7 +535,7 @@ func oracle(c *lib.Ctx, id string, in c09in, o c09obs) {
 			ch := o.Chunks[0]
 			endTicks := int64(ch.Tfdt+ch.span()) + in.StartS*o.TS
 			advTicksNum := (o.AvailMS - o.AtoMSChk) * o.TS // *1000
-			slack := int64(md) // video: segment boundaries are the advertised ones
+			slack := int64(md)                             // video: segment boundaries are the advertised ones
 			if in.Rep == "A48" {
 				slack = 2 * int64(md) // re-segmented audio starts less than one frame after the video segment
 			}
@@ -960,7 +961,9 @@ func runC09(c *lib.Ctx) error {
 	}
 	sort.Slice(rtElapsed, func(i, j int) bool { return rtElapsed[i] < rtElapsed[j] })
 	c.Res.Notes = append(c.Res.Notes, fmt.Sprintf("real-time (server-paced) requests: %d, handler run times ms %v", len(rtElapsed), rtElapsed))
-	c.Res.Evaluations = len(ins)
+	nMPD := env.mpdSignalling(c)
+	c.Res.Evaluations = len(ins) + nMPD
+	c.Res.ModelCases = len(ins)
 	c.Res.DistinctNontrivial = len(distinct)
 	c.Res.Rule = "L1: bundled assets testpic_2s/8s/6s, video and audio (re-segmented), ato from one frame short of a segment down to 1/50 of it, $Number$ and $Time$ addressing, start_ offsets, " +
 		"with and without eccp DRM, segments in the first loop / next to a wrap / ~25 years from the epoch, instants: 1 ms and up to 5 s before the advertised availability time, at it and after it (server-paced in real time), " +
@@ -1026,6 +1029,11 @@ func replayC09(c *lib.Ctx, env *l1env) error {
 		return err
 	}
 	var o c09obs
+	if in.Kind == "mpd" {
+		env.checkMPD(c, "replay", in)
+		fmt.Printf("replay C09 (mpd): %s: %d failure(s)\n", in.URL, len(c.Res.OracleFailures))
+		return nil
+	}
 	if in.Kind == "l2" {
 		o = runL2(in)
 	} else {
@@ -1047,4 +1055,79 @@ func replayC09(c *lib.Ctx, env *l1env) error {
 	}
 	oracle(c, "replay", in, o)
 	return nil
+}
+
+// ---------------------------------------------------------------- MPD low-latency signalling (oracle only)
+
+var reSegTpl = regexp.MustCompile(`<SegmentTemplate [^>]*>`)
+var reATO = regexp.MustCompile(`availabilityTimeOffset="([^"]*)"`)
+var reATC = regexp.MustCompile(`availabilityTimeComplete="([^"]*)"`)
+
+// mpdSignalling requests the MPD of the chunked configurations: the availabilityTimeOffset it
+// advertises must be the one the segment server and the chunking use (the URL's ato), and
+// availabilityTimeComplete must be false exactly in chunked mode.
+func (e *l1env) mpdSignalling(c *lib.Ctx) int {
+	n := 0
+	for _, x := range []struct {
+		asset string
+		atos  []string
+	}{{"testpic_2s", []string{"1.96", "1.9", "1.5", "1", "0.25", "0.04"}}, {"testpic_8s", []string{"7.96", "6", "0.5"}}, {"testpic_6s", []string{"5.9", "3"}}} {
+		a := e.assets[x.asset]
+		if a == nil {
+			continue
+		}
+		for _, ato := range x.atos {
+			for _, mode := range []string{"", "segtimeline_1/", "segtimelinenr_1/"} {
+				for _, chunked := range []bool{true, false} {
+					pre := "ato_" + ato + "/" + mode
+					if chunked {
+						pre = "chunkdur_0.5/" + pre
+					}
+					url := fmt.Sprintf("/livesim2/%s%s/%s?nowMS=%d", pre, a.Path, a.MPD, 1000000)
+					in := c09in{Kind: "mpd", Asset: x.asset, Ato: ato, URL: url, Mode: mode}
+					id := fmt.Sprintf("mpd%d", n)
+					n++
+					c.Res.Inputs[id] = in
+					c.Count("mpd-signalling")
+					e.checkMPD(c, id, in)
+				}
+			}
+		}
+	}
+	return n
+}
+
+func (e *l1env) checkMPD(c *lib.Ctx, id string, in c09in) {
+	chunked := strings.Contains(in.URL, "/chunkdur_")
+	r := e.ls.GetRaw(in.URL)
+	if r.Panic != "" {
+		c.Fail(id, "panic:"+strings.Replace(strings.Replace(r.Panic, ": runtime error: ", ":", 1), ": ", ":", 1), "MPD handler panicked: "+r.Panic, in)
+		return
+	}
+	if r.Status != 200 {
+		c.Fail(id, "mpd-status", fmt.Sprintf("MPD request answered %d", r.Status), in)
+		return
+	}
+	tpls := reSegTpl.FindAllString(string(r.Body), -1)
+	if len(tpls) == 0 {
+		c.Fail(id, "mpd-signalling", "no SegmentTemplate in the MPD", in)
+	}
+	want, _ := strconv.ParseFloat(in.Ato, 64)
+	for _, tp := range tpls {
+		mo := reATO.FindStringSubmatch(tp)
+		got := -1.0
+		if mo != nil {
+			got, _ = strconv.ParseFloat(mo[1], 64)
+		}
+		if got != want {
+			c.Fail(id, "mpd-ato", fmt.Sprintf("MPD advertises availabilityTimeOffset %v, the URL (segment server, chunking) uses %v: %s", got, want, tp), in)
+		}
+		mc := reATC.FindStringSubmatch(tp)
+		if chunked && (mc == nil || mc[1] != "false") {
+			c.Fail(id, "mpd-atc", "chunked mode but availabilityTimeComplete is not false: "+tp, in)
+		}
+		if !chunked && mc != nil && mc[1] == "false" {
+			c.Fail(id, "mpd-atc", "whole-segment mode but availabilityTimeComplete=false: "+tp, in)
+		}
+	}
 }
